@@ -95,7 +95,8 @@ def rerun(names, tier):
             checks = sorted(set([rec['property']] + list(rec.get('checks', {}))))
             rec['checks'] = run_checks(wt, checks, tier)
             rec['caught_by'] = [c for c, v in rec['checks'].items() if v['exit'] == 1]
-            json.dump(rec, open(os.path.join(base, d, 'meta.json'), 'w'), indent=1)
+            if '--no-save' not in sys.argv:      # e.g. VERIF_SEED=3 tools/seed.py rerun --no-save: how robust is the detection against the workload seed
+                json.dump(rec, open(os.path.join(base, d, 'meta.json'), 'w'), indent=1)
             print(d, 'caught by', rec['caught_by'] or 'NOTHING', {c: v['exit'] for c, v in rec['checks'].items()}, (rec['checks'][rec['property']]['violated_clauses'] or [''])[:2])
         finally:
             drop(wt)
